@@ -241,13 +241,19 @@ type probe struct {
 	name          string
 	pers          bool // runs on the history's long-lived logger of this configuration (fresh in the baseline)
 	deep          int  // extra call frames below the log call (stacks deeper than the pooled 64-frame storage)
+	// special probes on the long-lived logger: "lazy-sugar" logs through a sugared WithLazy child derived
+	// when the logger was built and not used since; "shared-slice" derives a child from a field slice
+	// (with Skip fields among the real ones) that the program keeps and passes again and again
+	special string
 }
 
 // persLogger is a long-lived logger with an accumulated context that ends inside an open
 // namespace; histories keep using it between probes.
 type persLogger struct {
-	l       *zap.Logger
-	out, eo *sink
+	l        *zap.Logger
+	out, eo  *sink
+	lazy     *zap.SugaredLogger
+	sharedFs []zap.Field
 }
 
 func buildPers(cfg int) *persLogger {
@@ -255,6 +261,8 @@ func buildPers(cfg int) *persLogger {
 	// the context holds a reflection-encoded value (the encoder keeps a scratch buffer for it) and
 	// ends inside an open namespace
 	p.l = cfgs[cfg].build(p.out, p.eo).With(zap.String("svc", "api"), zap.Reflect("settings", reflected{7, "ctx", []float64{0.5}, map[string]string{"env": "prod"}}), zap.Namespace("req"), zap.String("id", "42"))
+	p.lazy = p.l.Sugar().WithLazy("request", "r-1", "tenant", 9, zap.Int("shard", 3))
+	p.sharedFs = []zap.Field{zap.Skip(), zap.String("first", "1"), zap.Skip(), zap.Int("second", 2), zap.Skip(), zap.Bool("third", true)}
 	return p
 }
 
@@ -293,11 +301,14 @@ func init() {
 			v := (c + f) % len(variants)
 			catalogue = append(catalogue, probe{idx: len(catalogue), cfg: c, fs: f, vrnt: v, name: "long-lived:" + cfgs[c].name + "/" + fieldSets[f].name + "/" + variants[v], pers: true})
 		}
+		for _, sp := range []string{"lazy-sugar", "shared-slice"} {
+			catalogue = append(catalogue, probe{idx: len(catalogue), cfg: c, fs: 0, name: "long-lived:" + cfgs[c].name + "/" + sp, pers: true, special: sp})
+		}
 	}
 }
 
 //go:noinline
-func probeBody(p probe, l *zap.Logger) (panicked string) {
+func probeBody(p probe, l *zap.Logger, pl *persLogger) (panicked string) {
 	defer func() {
 		if x := recover(); x != nil {
 			panicked = fmt.Sprint(x)
@@ -315,6 +326,14 @@ func probeBody(p probe, l *zap.Logger) (panicked string) {
 	}
 	fd := fieldSets[p.fs]
 	msg := "probe " + p.name
+	switch p.special {
+	case "lazy-sugar":
+		pl.lazy.Infow(msg, "k", 1)
+		return
+	case "shared-slice":
+		l.With(pl.sharedFs...).Info(msg, pl.sharedFs...)
+		return
+	}
 	switch variants[p.vrnt] {
 	case "direct":
 		l.Log(fd.lvl, msg, fd.mk()...)
@@ -342,8 +361,9 @@ func probeBody(p probe, l *zap.Logger) (panicked string) {
 func runProbe(p probe, pers []*persLogger) []byte {
 	out, eo := &sink{}, &sink{}
 	var l *zap.Logger
+	var pl *persLogger
 	if p.pers {
-		pl := buildPersIfNil(pers, p.cfg)
+		pl = buildPersIfNil(pers, p.cfg)
 		pl.out.buf, pl.eo.buf = pl.out.buf[:0], pl.eo.buf[:0]
 		out, eo, l = pl.out, pl.eo, pl.l
 	}
@@ -354,11 +374,11 @@ func runProbe(p probe, pers []*persLogger) []byte {
 		}
 		if p.deep > 0 {
 			var res string
-			recurse(p.deep, func() { res = probeBody(p, l) })
+			recurse(p.deep, func() { res = probeBody(p, l, pl) })
 			done <- res
 			return
 		}
-		done <- probeBody(p, l)
+		done <- probeBody(p, l, pl)
 	}()
 	var pan string
 	select {
@@ -561,6 +581,17 @@ var histOps = []histOp{
 		c1.Info("child one")
 		c2.Error("child two", zap.Error(errors.New("e")))
 		l.WithLazy(zap.Int("lz", 1)).Named("lz").Debug("lazy child")
+	}},
+	{"long-lived-logger:child-from-the-kept-field-slice", func(h *histEnv) {
+		pl := rng.Pick(h.g, h.pers)
+		pl.l.With(pl.sharedFs...).Debug("kept slice", pl.sharedFs...)
+	}},
+	{"long-lived-logger:sugared-calls-of-every-shape", func(h *histEnv) {
+		s := rng.Pick(h.g, h.pers).l.Sugar()
+		s.Infow("sugared", "a", 1, "b", "two", zap.Int("c", 3), "d", []int{4})
+		s.With("w1", 1, "w2", 2).Warnw("sugared child", "e", 5)
+		s.WithLazy("l1", 1).Debugw("sugared lazy child", "f", 6, "g", 7, "h", 8)
+		s.Errorw("sugared error", "err", errors.New("x"), "i", 9, "j", 10, "k", 11, "l", 12)
 	}},
 	{"long-lived-logger:sugar-check-sync", func(h *histEnv) {
 		l := rng.Pick(h.g, h.pers).l
